@@ -133,8 +133,30 @@ func (c14) soakRound(ctx *core.Ctx, cs *core.Case) {
 		case 2:
 			return c14result(canonicalizer.GoogleSafeBrowsing.Parse(in))
 		default:
-			return c14result(url.ParseRef("http://base"+fmt.Sprint(i%5000)+".example/x/y", in[strings.Index(in, "//"):]))
+			// distinct, page-length base strings in flight at the same time
+			return c14result(url.ParseRef("http://base"+fmt.Sprint(i%5000)+".example/a/rather/long/directory/path/index.html?session="+fmt.Sprint(i%5000), in[strings.Index(in, "//"):]))
 		}
+	}
+	// victims: values obtained BEFORE the soak (and results resolved against them) must still say
+	// the same afterwards - a bounded table that hands out pointers into itself rewrites live
+	// values when it evicts
+	var victims []*url.Url
+	var victimSnaps []obs.Snap
+	for v := 0; v < 40; v++ {
+		in := fmt.Sprintf("http://victim%d.example:8%03d/dir/page?x=%d#f", v, v, v)
+		for obj, parse := range []func(string) (*url.Url, error){url.Parse, c14SoakParser.Parse, canonicalizer.GoogleSafeBrowsing.Parse} {
+			if u, err := parse(in); err == nil && u != nil {
+				victims = append(victims, u)
+				if obj < 2 {
+					if r, err := u.Parse("//other" + fmt.Sprint(v) + ".example/q"); err == nil && r != nil {
+						victims = append(victims, r, u.Clone())
+					}
+				}
+			}
+		}
+	}
+	for _, u := range victims {
+		victimSnaps = append(victimSnaps, obs.Take(u))
 	}
 	type sample struct {
 		obj, i int
@@ -193,6 +215,14 @@ func (c14) soakRound(ctx *core.Ctx, cs *core.Case) {
 			}
 		}
 	}
+	for k, u := range victims {
+		if after := obs.Take(u); after != victimSnaps[k] {
+			ctx.Violate("a URL value obtained before heavy use of the same parser says something else afterwards", victimSnaps[k].Href, after.Href,
+				fmt.Sprintf("soak round (%d distinct names): %s", N, strings.Join(obs.Diff(victimSnaps[k], after), "; ")))
+			return
+		}
+	}
+	ctx.Add("soak_victims_unchanged", int64(len(victims)))
 	c14CheckBaseline(ctx, "soak round")
 }
 
